@@ -11,7 +11,7 @@ import (
 )
 
 func init() {
-	register("C11", "Ownership and write-effect analysis: (R1) no instruction in any function reachable from the read-only API (Validate, Walk, every rule, VariableValues, ArgumentMap, Value.Value, the formatter, the ast read helpers) stores through an address that may be schema memory — by type (Schema, Definition, FieldDefinition, ArgumentDefinition, EnumValueDefinition, DirectiveDefinition), by derivation from such a value, or through a document field that links into the schema (ExpectedType, Definition, ObjectDefinition, ...) — directly or by passing it to a callee whose mod-summary writes that parameter; (R2) none of them writes a package-level variable; (R3) rule state is per Validate call. Decides data-race freedom on the schema and its immutability for all schedules and histories; aliasing created through reflection is outside the analysis (checked: no schema value reaches reflect). (R4) no process-wide state: package-level variables are only loaded outside initialisers and the registry functions. (R5) no shallow copy of a schema-owned struct is stored into another object.", runC11)
+	register("C11", "Ownership and write-effect analysis: (R1) no instruction in any function reachable from the read-only API (Validate, Walk, every rule, VariableValues, ArgumentMap, Value.Value, the formatter, the ast read helpers) stores through an address that may be schema memory — by type (Schema, Definition, FieldDefinition, ArgumentDefinition, EnumValueDefinition, DirectiveDefinition), by derivation from such a value, or through a document field that links into the schema (ExpectedType, Definition, ObjectDefinition, ...) — directly or by passing it to a callee whose mod-summary writes that parameter; (R2) none of them writes a package-level variable; (R3) rule state is per Validate call. Decides data-race freedom on the schema and its immutability for all schedules and histories; aliasing created through reflection is outside the analysis (checked: no schema value reaches reflect). (R4) no process-wide state: package-level variables are only loaded outside initialisers and the registry functions. (R5) no shallow copy of a schema-owned struct is stored into another object. (R6) a schema-owned reference is stored into a document only through a link field; syntactic fields never receive schema memory.", runC11)
 }
 
 // readOnlyRoots returns the API a shared schema may be used through concurrently.
